@@ -5,7 +5,10 @@
 mod graphgen;
 use graphgen::*;
 use qv::{gallina as g, Args, Rng, Run};
-use quil_rs::instruction::{DefaultHandler, ExternSignatureMap, Instruction, Pragma, PragmaArgument};
+use quil_rs::instruction::{
+    CalibrationDefinition, CalibrationIdentifier, DefaultHandler, ExternSignatureMap, Instruction,
+    MeasureCalibrationDefinition, MeasureCalibrationIdentifier, Pragma, PragmaArgument, Qubit,
+};
 use quil_rs::program::analysis::{BasicBlock, BasicBlockScheduleError, ControlFlowGraph};
 use quil_rs::program::scheduling::{ComputedScheduleError, Schedule, Seconds};
 use quil_rs::quil::Quil;
@@ -289,7 +292,23 @@ const UNTIMED: &[(&str, Option<f64>)] = &[
     ("NOP", None),
 ];
 
-const GATES: &[&str] = &["X 0", "X 1", "CZ 0 1", "Y 0", "I 0", "H 2", "MEASURE 0 ro[0]", "Z 1"];
+const GATES: &[&str] = &[
+    "X 0", "X 1", "CZ 0 1", "Y 0", "I 0", "H 2", "MEASURE 0 ro[0]", "Z 1",
+    // calibrations with an EMPTY body (added through the API, see add_empty_cals) and wrappers of them
+    "SKIP 0", "SKIP 1", "NOPE 0 1", "WRAP 0", "WRAP2 0", "MEASURE 2 ro[2]", "SKIP 0",
+];
+
+/// Empty-bodied calibrations cannot be written in Quil text; the API accepts them.
+fn add_empty_cals(program: &mut Program) {
+    for (name, qubits) in [("SKIP", vec![0u64]), ("SKIP", vec![1]), ("NOPE", vec![0, 1])] {
+        let id = CalibrationIdentifier::new(name.to_string(), vec![], vec![], qubits.into_iter().map(Qubit::Fixed).collect()).expect("identifier");
+        program.add_instruction(Instruction::CalibrationDefinition(CalibrationDefinition::new(id, vec![])));
+    }
+    program.add_instruction(Instruction::MeasureCalibrationDefinition(MeasureCalibrationDefinition::new(
+        MeasureCalibrationIdentifier::new(None, Qubit::Fixed(2), Some("addr".to_string())),
+        vec![],
+    )));
+}
 
 const CALS: &str = "DEFCAL X 0:\n    PULSE 0 \"a\" flat(duration: 2.0, iq: 1.0)\n\
 DEFCAL X 1:\n    NONBLOCKING PULSE 1 \"a\" flat(duration: 4.0, iq: 1.0)\n    DELAY 1 3\n\
@@ -297,7 +316,9 @@ DEFCAL CZ 0 1:\n    FENCE 0 1\n    NONBLOCKING PULSE 0 1 \"ab\" flat(duration: 0
 DEFCAL Y 0:\n    X 0\n    SHIFT-PHASE 1 \"a\" 0.25\n    X 0\n\
 DEFCAL H 2:\n    PULSE 2 \"c\" flat(duration: 3.0, iq: 1.0)\n    NONBLOCKING PULSE 2 \"c\" w4\n    FENCE 2\n\
 DEFCAL Z 1:\n    SET-PHASE 0 \"a\" 0.5\n\
-DEFCAL MEASURE 0 addr:\n    FENCE 0\n    CAPTURE 0 \"b\" flat(duration: 1.0, iq: 1.0) addr\n";
+DEFCAL MEASURE 0 addr:\n    FENCE 0\n    CAPTURE 0 \"b\" flat(duration: 1.0, iq: 1.0) addr\n\
+DEFCAL WRAP 0:\n    SKIP 0\n\
+DEFCAL WRAP2 0:\n    SKIP 0\n    X 0\n    WRAP 0\n";
 
 struct DurTable {
     map: HashMap<String, Option<i64>>,
@@ -373,13 +394,15 @@ fn run_plain(run: &mut Run, table: &DurTable, text: &str) {
 }
 
 fn run_calibrated(run: &mut Run, table: &DurTable, text: &str) {
-    let program = match Program::from_str(text) {
+    let mut program = match Program::from_str(text) {
         Ok(p) => p,
         Err(e) => {
             run.process_failure("generated program does not parse", &format!("{text} :: {e}"), None);
             return;
         }
     };
+    add_empty_cals(&mut program);
+    let program = program;
     let ext = ExternSignatureMap::try_from(program.extern_pragma_map.clone()).unwrap_or_default();
     let body = text.strip_prefix(QHEADER).unwrap_or(text).strip_prefix(CALS).unwrap_or(text).replace('\n', "; ");
     let block: BasicBlock = match (&program).try_into() {
@@ -436,6 +459,9 @@ fn run_calibrated(run: &mut Run, table: &DurTable, text: &str) {
     mutate_sched(&mut sobs);
     let coq = scase(&infos, term.as_ref(), &[], &groups, &durs, &sobs);
     run.count(&format!("cal:len={}", groups.len().min(9)));
+    if groups.iter().any(|g| *g == 0) {
+        run.count("cal:with-empty-expansion");
+    }
     run.count(match &sobs {
         SObs::Ok(..) => "cal:ok",
         SObs::Err(e) => e,
@@ -501,6 +527,18 @@ const FIXED_CAL: &[&str] = &[
     "MEASURE 0 ro[0]\nX 0\n",
     "T 0\n",
     "X 0\nPULSE 0 \"a\" flat(duration: 2.0, iq: 1.0)\nCZ 0 1\nDELAY 0 1.0\n",
+    // empty-bodied calibrations: alone, first, last, between, repeated, nested, measure
+    "SKIP 0\n",
+    "SKIP 0\nPULSE 0 \"a\" flat(duration: 2.0, iq: 1.0)\n",
+    "PULSE 0 \"a\" flat(duration: 2.0, iq: 1.0)\nSKIP 0\n",
+    "PULSE 0 \"a\" flat(duration: 2.0, iq: 1.0)\nSKIP 0\nX 1\nSKIP 0\nSKIP 1\nPULSE 0 1 \"ab\" flat(duration: 1.5, iq: 1.0)\n",
+    "SKIP 0\nSKIP 1\nNOPE 0 1\n",
+    "WRAP 0\nX 0\n",
+    "X 0\nWRAP 0\nWRAP2 0\nDELAY 0 1.0\n",
+    "WRAP2 0\nWRAP2 0\n",
+    "MEASURE 2 ro[2]\nPULSE 2 \"c\" flat(duration: 3.0, iq: 1.0)\n",
+    "DELAY 2 0.25\nMEASURE 2 ro[2]\nMEASURE 0 ro[0]\nMEASURE 2 ro[2]\n",
+    "NOPE 0 1\nCZ 0 1\nNOPE 0 1\nCZ 0 1\n",
 ];
 
 fn main() {
@@ -532,7 +570,7 @@ fn main() {
          through as_schedule_seconds with the DefaultHandler (pulses / captures with flat, erf_square, gaussian and \
          DEFWAVEFORM waveforms, raw captures, delays, fences, SET-/SHIFT-/SWAP-PHASES; dyadic durations, expected \
          duration per instruction from the documentation); random and fixed programs with DEFCALs (nested, multi-instruction, \
-         measure calibration) through BasicBlock::as_schedule_seconds. Distinct by description; non-trivial = a schedule is \
+         measure calibration, and empty-bodied gate / measure calibrations added through the API: alone, first, last, between, nested) through BasicBlock::as_schedule_seconds. Distinct by description; non-trivial = a schedule is \
          computed for >= 2 instructions (calibrated: some instruction expands to >= 2).",
         true,
         serde_json::json!({"exhaustive_cases": exhaustive_cases, "random_abstract": na, "random_quilt": np, "random_calibrated": nc}),
